@@ -129,6 +129,7 @@ fn main() {
             "snap" => suites::snap::run(&mut ctx),
             "look" => suites::look::run(&mut ctx),
             "rw" => suites::rw::run(&mut ctx),
+            "runner" => suites::runner::run(&mut ctx),
             "ord" => suites::meta::run_order(&mut ctx),
             "ren" => suites::meta::run_rename(&mut ctx),
             _ => panic!("unknown suite"),
